@@ -65,7 +65,7 @@ Lemma pin_evaluate_ret_ok : pin_evaluate_ret = "ca79eb7f89f65a7384d9"%string.
 Proof. reflexivity. Qed.
 
 (* pyanalyze/type_evaluation.py: EvaluateVisitor.visit_block *)
-Lemma pin_visit_block_ok : pin_visit_block = "dabe673f75bf2ac9cf4d"%string.
+Lemma pin_visit_block_ok : pin_visit_block = "afce79d3bcd4bd61992c"%string.
 Proof. reflexivity. Qed.
 
 (* pyanalyze/type_evaluation.py: EvaluateVisitor.visit_If *)
